@@ -263,6 +263,9 @@ class MetadataGenerator:
                 optional = True
                 while Null in types:
                     types.remove(Null)
+                if not types:
+                    # Nothing but nulls (and unknowns) was observed
+                    return Null
 
             meta_type = DUnion(*types)
             if len(meta_type.types) == 1:
